@@ -10,8 +10,8 @@ RULE = ("one case = (method (uniform or adaptive grid), direction, dense flag, w
         "bit-equal sol(t), otherwise a nearest recorded sample, whole-run time slices in either direction; non-trivial = >=5 recorded rows; distinct by "
         "(method, direction, dense, continuation, seed)")
 ASSUMPTIONS = ["nearest: |t_ret - q| <= min_k |t_k - q| * (1 + 64 eps) + 4 ulp (ties may go either way)"]
-FLOORS = {"quick": {"systems": 60, "index_lookups": 1500, "time_lookups_nodense": 2000, "time_lookups_dense": 800, "backward_systems": 20, "slices": 100, "iterations": 60, "early_sequence_checks": 120, "array_lookups": 15, "systems_with_grid_spacing_below_sqrt_eps": 8},
-          "thorough": {"systems": 600, "index_lookups": 15000, "time_lookups_nodense": 20000, "time_lookups_dense": 8000, "backward_systems": 200, "slices": 1000, "iterations": 600, "early_sequence_checks": 1200, "array_lookups": 150, "systems_with_grid_spacing_below_sqrt_eps": 80}}
+FLOORS = {"quick": {"systems": 60, "index_lookups": 1500, "time_lookups_nodense": 2000, "time_lookups_dense": 800, "backward_systems": 20, "slices": 100, "iterations": 60, "early_sequence_checks": 120, "array_lookups": 15, "systems_with_grid_spacing_below_sqrt_eps": 8, "richardson_many_level_systems": 5, "richardson_lookups_checked_for_containment": 150},
+          "thorough": {"systems": 600, "index_lookups": 15000, "time_lookups_nodense": 20000, "time_lookups_dense": 8000, "backward_systems": 200, "slices": 1000, "iterations": 600, "early_sequence_checks": 1200, "array_lookups": 150, "systems_with_grid_spacing_below_sqrt_eps": 80, "richardson_many_level_systems": 30, "richardson_lookups_checked_for_containment": 900}}
 METHODS = ["RK4Solver", "RK45CKSolver", "DOPRI45", "EulerSolver", "RK8713MSolver", "ABAs5o6HSolver", "RadauIIA5", "HeunEulerSolver"]
 
 
@@ -22,12 +22,21 @@ def gen_cases(tier, seed):
         cases.append(dict(method=METHODS[int(rng.integers(len(METHODS)))], direction=int(rng.choice([-1, 1])), dense=bool(rng.random() < 0.35),
                           cont=bool(rng.random() < 0.4), nsteps=float(rng.uniform(6, 40)), t0=float(rng.uniform(-5, 5)), pseed=int(rng.integers(1 << 30)), cost=2,
                           tscale=float(rng.choice([1.0, 1.0, 1.0, 1e-9, 1e-7, 1e-4, 1e3]))))
+    # Richardson wrappers with many levels (their dense pieces come from the sub-steps of the levels; an extrapolation table that converges early
+    # leaves its loop before the last level): time look-ups with dense output over EVERY recorded step, at tight tolerances
+    rngr = rng_for(1903, seed)
+    for i in range(8 if tier == "quick" else 48):
+        base, n = [("MidpointSolver", 6), ("EulerSolver", 7), ("RK4Solver", 6), ("HeunsSolver", 6)][i % 4]
+        cases.append(dict(method=base, rich=n, direction=int(rngr.choice([-1, 1])), dense=True, cont=bool(rngr.random() < 0.4), nsteps=float(rngr.choice([4.0, 6.0, 12.0])),
+                          t0=float(rngr.uniform(-5, 5)), pseed=int(rngr.integers(1 << 30)), cost=12, tscale=1.0, rtol=float(rngr.choice([1e-9, 1e-10]))))
     return cases
 
 
 def run_case(spec):
     M = util.methods()
     info = M[spec["method"]]
+    if spec.get("rich"):
+        info = dict(info, cls=util.richardson(info["cls"], spec["rich"]), adaptive=True, family="richardson")
     d = spec["direction"]
     prob = Manufactured(2, spec["pseed"], direction=d)
     rng = rng_for(1902, spec["pseed"])
@@ -44,7 +53,7 @@ def run_case(spec):
 
     def rhs_scaled(t, y, **kw):
         return prob.rhs(t / ts, y) / ts
-    system = sysrun.make_system(rhs_scaled, prob.ystar(spec["t0"]).astype(np.float64), t0, tf, L / spec["nsteps"], info["cls"], dense=spec["dense"], rtol=1e-5, atol=1e-7)
+    system = sysrun.make_system(rhs_scaled, prob.ystar(spec["t0"]).astype(np.float64), t0, tf, L / spec["nsteps"], info["cls"], dense=spec["dense"], rtol=spec.get("rtol", 1e-5), atol=spec.get("rtol", 1e-5) * 1e-2)
     early = []     # observations taken on the freshly constructed system and from inside a step callback (storage not yet trimmed)
 
     def seq_check(sysm, where):
@@ -138,6 +147,24 @@ def run_case(spec):
         hmax = float(np.max(np.abs(np.diff(t)))) / ts if n > 1 else 0.0
         dyb = node + hmax ** 4 * prob.d4ystar_max() / 384.0 + 64 * eps * (1 + float(np.max(np.abs(y))))
         acc_bound = 8 * dyb * (1 + prob.lipschitz() * hmax) + 1e-12
+        if spec.get("rich"):
+            # pieces are the (very short) sub-steps of the finest level: what separates them from the solution is the base method's error on those
+            # sub-steps (10..200 tolerance units on the unchanged tree), not h^4 of the whole step
+            # (how far those pieces are from the solution is the base method's own error on the sub-steps - KF09, C06's subject; what a look-up
+            #  can be held to is that the time is answered by a piece that CONTAINS it: a recorded step without pieces is answered by extrapolating
+            #  a neighbour)
+            rec.bump("richardson_many_level_systems")
+            qs = np.concatenate([qs, t.astype(float), 0.5 * (t[:-1] + t[1:]).astype(float)])
+            sol_ = system.sol
+            for q_ in qs:
+                if not (lo <= float(q_) <= hi):
+                    continue
+                p_ = sol_.y_interpolants[int(sol_.find_interval(np.asarray(float(q_))))]
+                a_, b_ = sorted([float(p_.t0), float(p_.t1)])
+                rec.bump("richardson_lookups_checked_for_containment")
+                if not (a_ - 16 * eps * max(1.0, abs(a_)) <= float(q_) <= b_ + 16 * eps * max(1.0, abs(b_))):
+                    rec.violate("time_lookup_dense", "time_inside_a_recorded_step_answered_by_a_piece_that_does_not_contain_it", feats, q=float(q_), piece=[a_, b_])
+                    break
     for q in qs:
         q = float(q)
         try:
@@ -154,7 +181,7 @@ def run_case(spec):
                 # ... and that is the solution there, to what a cubic Hermite piece between accurate nodes allows
                 e_ = float(np.max(np.abs(np.asarray(got.y, dtype=np.longdouble) - prob.ystar(q / ts))))
                 rec.worst("dense_lookup_error_over_bound", e_ / acc_bound)
-                if e_ > acc_bound and nbad == 0:
+                if e_ > acc_bound and nbad == 0 and not spec.get("rich"):
                     nbad += 1
                     rec.violate("time_lookup_dense", "time_lookup_with_dense_output_is_not_the_solution_at_that_time", feats, q=q, err=e_, bound=acc_bound)
         else:
